@@ -254,7 +254,7 @@ class Gen:
             a = self.pick_var()
             return self.let(f, [a.name, self.axis(a)], intval=iv)
         if f == "pown":
-            return self.let(f, [self.pick_var().name, r.choice([-2, -1, 0, 1, 2, 3])], intval=False)
+            return self.let(f, [self.pick_var().name, r.choice([-2, -1, 0, 1, 2, 3, 2, 3, 16777217, -16777217, 33554433, 1073741825, 2147483647, -2147483647])], intval=False)
         if f in ("prelu", "elu"):
             return self.let(f, [self.pick_var().name, r.choice([0, 0.5, 1, 2])])
         if f == "selu2":
@@ -641,7 +641,7 @@ def enum_programs(tier):
                 calls.append(("batch::slice", [x, lo, up]))
         for ids in ("I:", "I:0", "I:1", "I:0,1", "I:2", "I:0,1,0"):
             calls.append(("batch::pick", [x, ids]))
-        for k in (-2, -1, 0, 1, 2, 3):
+        for k in (-2, -1, 0, 1, 2, 3, 16777217, -33554433, 2147483647):
             calls.append(("pown", [x, k]))
         for k in (0, 0.5, 2):
             calls += [("prelu", [x, k]), ("elu", [x, k])]
